@@ -22,6 +22,7 @@ pub struct VariablesInAllowedPosition<'a> {
     variable_usages: HashMap<Scope<'a>, Vec<(&'a str, &'a Type, bool)>>,
     variable_defs: HashMap<Scope<'a>, Vec<&'a VariableDefinition>>,
     current_scope: Option<Scope<'a>>,
+    operations_seen: usize,
     /// Name of the directive whose arguments are being visited, if any.
     current_directive: Option<String>,
     /// Names of the input object types expected by the enclosing object literals.
@@ -38,6 +39,7 @@ impl<'a> VariablesInAllowedPosition<'a> {
             variable_usages: HashMap::new(),
             variable_defs: HashMap::new(),
             current_scope: None,
+            operations_seen: 0,
             current_directive: None,
             input_object_stack: Vec::new(),
             location_default_stack: Vec::new(),
@@ -114,7 +116,9 @@ impl<'a> VariablesInAllowedPosition<'a> {
 
 #[derive(Debug, Clone, PartialEq, Eq, Hash)]
 pub enum Scope<'a> {
-    Operation(Option<&'a str>),
+    /// the operation's index in the document and its name: operations that share a name (or are
+    /// both anonymous) must not share a table
+    Operation(usize, Option<&'a str>),
     Fragment(&'a str),
 }
 
@@ -151,7 +155,11 @@ impl<'a> OperationVisitor<'a, ValidationErrorContext> for VariablesInAllowedPosi
         _: &mut ValidationErrorContext,
         operation_definition: &'a crate::static_graphql::query::OperationDefinition,
     ) {
-        self.current_scope = Some(Scope::Operation(operation_definition.node_name()));
+        self.current_scope = Some(Scope::Operation(
+            self.operations_seen,
+            operation_definition.node_name(),
+        ));
+        self.operations_seen += 1;
     }
 
     fn enter_fragment_spread(
